@@ -49,7 +49,18 @@ def prm_value(r, name, span):
 
 
 def prm_spec(r, name, dims_letters, shape, span):
-    kind = r.choice(["scalar", "label", "label", "cohort", "all"])
+    kind = r.choice(["scalar", "label", "label", "cohort", "all", "diverge"])
+    if kind == "diverge":
+        # the same value for every label in the first cohort, different ones later (lifetime extension)
+        if len(dims_letters) < 2:
+            kind = "cohort"
+        else:
+            m = 1
+            for k in shape[1:]:
+                m *= k
+            v0 = fnum(prm_value(r, name, span))
+            vals = [v0] * m + [fnum(prm_value(r, name, span)) for _ in range((shape[0] - 1) * m)]
+            return {"kind": "array", "dims": list(dims_letters), "vals": vals}
     if kind == "scalar" or len(dims_letters) == 0:
         return {"kind": "scalar", "v": fnum(prm_value(r, name, span))}
     if kind == "label":
@@ -132,6 +143,15 @@ def gen_dsm(tier, seed):
         ops.append({"kind": "sdsm", "solver": "manual", "stock": st})
         ops.append({"kind": "bal"})
         ops.append({"kind": "sdsm", "solver": "lapack", "stock": st})
+        # drivers given as whole numbers held with an integer dtype (counts), and drivers of very small
+        # magnitude (another unit): the same model, the same answers
+        ints = [str(r.randint(0, 60)) for _ in range(n * m)]
+        ops.append({"kind": "sdsm", "solver": "manual", "stock": ints, "int": True})
+        ops.append({"kind": "sdsm", "solver": "lapack", "stock": ints, "int": True})
+        ops.append({"kind": "idsm", "inflow": [str(r.randint(0, 30)) for _ in range(n * m)], "int": True})
+        sc = r.choice([30, 40, 50])
+        ops.append({"kind": "idsm", "inflow": driver(r, n, m, "nonneg"), "scale": sc})
+        ops.append({"kind": "sdsm", "solver": r.choice(["manual", "lapack"]), "stock": driver(r, n, m, "any"), "scale": sc})
         ops.append({"kind": "fds", "inflow": driver(r, n, m, "nonneg"), "outflow": driver(r, n, m, "nonneg")})
         ops.append({"kind": "bal"})
         ops.append({"kind": "bal", "perturb": [r.choice(["stock", "inflow", "outflow"]), r.randrange(10 ** 6),
